@@ -122,7 +122,7 @@ def sym_hex(x):
 
 class WordHarness(Harness):
   name = "c17_word"
-  properties = ("C17", "C18")
+  properties = ("C17",)
   functions = ("scc.word:SccWord.from_bytes", "scc.word:SccWord.from_value", "scc.word:SccWord._find_code",
                "scc.word:SccWord.get_channel", "scc.word:SccWord.to_text",
                "scc.codes.preambles_address_codes:SccPreambleAddressCode.__init__",
